@@ -48,24 +48,24 @@ var avcAvoidKnown = map[string]bool{
 	"avc-sps-poc1-offsets-unsigned": true,
 	// avc/sps.go parseVUI: aspect_ratio_idc 0 ("Unspecified", a legal value of Table E-1) makes
 	// GetSARfromIDC fail and ParseSPSNALUnit return an error for a valid SPS. Avoidance: idc in 1..16, 255.
-	"avc-sps-aspect-ratio-idc0": true,
+	"avc-sps-aspect-ratio-idc0": false, // repaired in /repo (fix: commit), see known_findings.json
 	// avc/pps.go slice_group_map_type 2: the loop over top_left/bottom_right runs iGroup <= num_slice_groups_minus1,
 	// the standard (7.3.2.2) codes iGroup < num_slice_groups_minus1 pairs: one pair too many is read and
 	// everything after it is shifted. Avoidance: map type 2 not generated.
-	"avc-pps-slicegroup-type2-extra-pair": true,
+	"avc-pps-slicegroup-type2-extra-pair": false, // repaired in /repo (fix: commit), see known_findings.json
 	// avc/pps.go slice_group_map_type 6: pic_size_in_map_units_minus1 ue(v) is not read at all and
 	// num_slice_groups_minus1+1 slice_group_id values are read instead of pic_size_in_map_units_minus1+1.
 	// Avoidance: map type 6 not generated.
-	"avc-pps-slicegroup-type6": true,
+	"avc-pps-slicegroup-type6": false, // repaired in /repo (fix: commit), see known_findings.json
 	// avc/pps.go: with pic_scaling_matrix_present_flag=1 and transform_8x8_mode_flag=0 the six 4x4 lists
 	// (6 + ((chroma_format_idc != 3) ? 2 : 6) * transform_8x8_mode_flag) are not read.
 	// Avoidance: the scaling matrix is only generated together with transform_8x8_mode_flag=1.
-	"avc-pps-scalinglists-without-8x8": true,
+	"avc-pps-scalinglists-without-8x8": false, // repaired in /repo (fix: commit), see known_findings.json
 	// avc/slice.go: `spsID := pps.PicParameterSetID` - the SPS is looked up with the PPS's own id instead of
 	// its seq_parameter_set_id. Avoidance: the PPS used by the slice gets pic_parameter_set_id == seq_parameter_set_id.
-	"avc-slice-spsid-via-ppsid": true,
+	"avc-slice-spsid-via-ppsid": false, // repaired in /repo (fix: commit), see known_findings.json
 	// avc/slice.go never sets SliceHeader.SeqParamID (always 0). Avoidance: the SPS used by the slice gets id 0.
-	"avc-slice-seqparamid-unset": true,
+	"avc-slice-seqparamid-unset": false, // repaired in /repo (fix: commit), see known_findings.json
 	// avc/slice.go: the width of slice_group_change_cycle is computed from pps.PicSizeInMapUnitsMinus1 (never
 	// parsed for map types 3..5, so 0) with integer division: 1 bit if SliceGroupChangeRate==1, else 0 bits;
 	// the standard (7-35) says Ceil(Log2(PicSizeInMapUnits / SliceGroupChangeRate + 1)) with PicSizeInMapUnits of the SPS.
@@ -73,13 +73,13 @@ var avcAvoidKnown = map[string]bool{
 	"avc-slice-group-change-cycle-bits": true,
 	// avc.CreateAVCDecConfRec hard-codes ChromaFormat=1, BitDepthLumaMinus1(=minus8)=0, BitDepthChromaMinus1=0.
 	// Avoidance: the first SPS of a configuration record is 4:2:0 8 bit.
-	"avc-conf-chroma-bitdepth-hardcoded": true,
+	"avc-conf-chroma-bitdepth-hardcoded": false, // repaired in /repo (fix: commit), see known_findings.json
 	// (a finding of C01/C02, seen here through C15's init-segment round trip) avc.DecConfRec.Size counts the four
 	// trailing bytes chroma_format.. for every profile except 66/77/88, EncodeSW writes them only for 100/110/122/144:
 	// for the other profiles (244, 44, 83, 86, 118, 128, 134, 135, 138, 139) the avcC box says size+4 but is 4 bytes
 	// short, and the enclosing init segment cannot be decoded ("moov: expected N bytes, got N-4").
 	// Avoidance: for those profiles the box/init-segment encode+decode step of the conf check is not requested.
-	"avc-conf-avcc-size-encode-mismatch": true,
+	"avc-conf-avcc-size-encode-mismatch": false, // repaired in /repo (fix: commit), see known_findings.json
 }
 
 // avcAvoid reports whether the switch is on; when the drawn feature `hit` would trigger the defect
